@@ -80,9 +80,13 @@ class Sites:
         self.RUN_SOCK = one("DeferredSender.run", lambda n: sock_send(n, "con"), "l = con.sock.send(data)")
         self.RUN_SENDING_FALSE = one("DeferredSender.run", lambda n: isinstance(n, ast.Assign) and len(n.targets) == 1 and
                                      is_attr(n.targets[0], "self", "sending"), "self.sending = False")
-        withs = sorted(n.lineno for n in ast.walk(self.fns["DeferredSender.run"]) if isinstance(n, ast.With))
-        if len(withs) != 2: raise LookupError("DeferredSender.run: expected two `with self._lock:` blocks")
-        self.RUN_WITH1, self.RUN_WITH2 = withs
+        # the `with self._lock:` block of DeferredSender.run in which the queued data is written (the innermost one around the
+        # `con.sock.send`); other locked blocks of the loop (taking the snapshot of the keys, forgetting closed connections)
+        # are not actions of the model
+        withs = sorted((n.lineno, n.end_lineno) for n in ast.walk(self.fns["DeferredSender.run"]) if isinstance(n, ast.With))
+        around = [w for w in withs if w[0] <= self.RUN_SOCK <= w[1]]
+        if not around: raise LookupError("DeferredSender.run: no `with self._lock:` block around `con.sock.send`")
+        self.RUN_WITH1, self.RUN_WITH2 = withs[0][0], around[-1][0]
         w = [n.lineno for n in ast.walk(self.fns["DeferredSender.send"]) if isinstance(n, ast.With)]
         if len(w) != 1: raise LookupError("DeferredSender.send: expected one `with self._lock:` block")
         self.DS_SEND_WITH = w[0]
